@@ -32,7 +32,7 @@ META = {
              'list spec and inside another Group. Non-trivial: >= 2 buckets or >= 2 key levels; distinct by (tree shape, '
              'key-function kinds, leaf kind, item kind, number of buckets, order class).'),
     'assumptions': [
-        'empty inputs, Sample (random by design) and SKIP/STOP produced by value specs are outside the statement',
+        'empty inputs, Sample (random by design) and STOP produced by value specs are outside the statement; a value spec in a [..] leaf may answer SKIP (the value is not collected) - whether such an item still opens its bucket is not stated, both loops are accepted',
         'two key specs in one level produce disjoint keys',
     ],
 }
@@ -86,7 +86,19 @@ def key_fns(item_kind, rng, tagged=False):
     return rng.choice(pool)
 
 
-def val_fns(item_kind, rng):
+def val_fns(item_kind, rng, allow_skip=False):
+    if allow_skip and rng.random() < 0.15:
+        # a value spec that answers SKIP for some items: that value is not collected.  Whether such an item still opens its
+        # bucket is not stated by the property; both loops are accepted (see ref_group's `opens`)
+        if item_kind == 'int':
+            return rng.choice([('skip-neg-else-T', lambda t: SKIP if t < 0 else t, lambda t: SKIP if t < 0 else t),
+                               ('skip-even-else-T', lambda t: SKIP if t % 2 == 0 else t, lambda t: SKIP if t % 2 == 0 else t),
+                               ('skip-all', lambda t: SKIP, lambda t: SKIP)])
+        if item_kind == 'tuple':
+            return ('skip-a-else-T[1]', lambda t: SKIP if t[0] == 'a' else t[1], lambda t: SKIP if t[0] == 'a' else t[1])
+        if item_kind == 'seq':
+            return ('skip-empty-else-len', lambda t: SKIP if not t else len(t), lambda t: SKIP if not t else len(t))
+        return ("skip-b-else-v", lambda t: SKIP if t['k'] == 'b' else t['v'], lambda t: SKIP if t['k'] == 'b' else t['v'])
     if item_kind == 'int':
         return rng.choice([('T', lambda t: t, T), ('T*2', lambda t: t * 2, T * 2), ('fn', lambda t: (t, 'v'), lambda t: (t, 'v'))])
     if item_kind == 'tuple':
@@ -110,9 +122,9 @@ def leaf(item_kind, rng, first_ok=True):
         choices += ['Count', "Sum['v']", 'Merge']
     c = rng.choice(choices)
     if c == 'list':
-        return ('list', [val_fns(item_kind, rng)])
+        return ('list', [val_fns(item_kind, rng, True)])
     if c == 'list2':
-        return ('list', [val_fns(item_kind, rng), val_fns(item_kind, rng)])
+        return ('list', [val_fns(item_kind, rng, True), val_fns(item_kind, rng, True)])
     if c == 'auto':
         return ('auto', val_fns(item_kind, rng))
     return ('agg', c)
@@ -207,7 +219,21 @@ def agg_ref(name, items):
     raise AssertionError(name)
 
 
-def ref_group(items, node):
+def contributes(item, node):
+    """does the item leave anything in the result (reading B of a SKIPped value: an item whose values are all SKIPped is dropped
+    before it opens a bucket)"""
+    kind = node[0]
+    if kind == 'dict':
+        return any(kd[1](item) is not SKIP and contributes(item, sub) for kd, sub in node[1])
+    if kind == 'list':
+        return any(vd[1](item) is not SKIP for vd in node[1])
+    if kind == 'limit':
+        return node[2] is None or contributes(item, node[2])
+    return True
+
+
+def ref_group(items, node, opens='routed'):
+    """opens: 'routed' - an item opens its bucket when it is routed there; 'kept' - only when a value of it is kept"""
     kind = node[0]
     if kind == 'dict':
         streams = OrderedDict()
@@ -216,18 +242,31 @@ def ref_group(items, node):
                 k = kd[1](item)
                 if k is SKIP:
                     continue
+                if opens == 'kept' and not contributes(item, sub):
+                    continue
                 if k not in streams:
                     streams[k] = (sub, [])
                 streams[k][1].append(item)
-        return {k: ref_group(its, sub) for k, (sub, its) in streams.items()}
+        return {k: ref_group(its, sub, opens) for k, (sub, its) in streams.items()}
     if kind == 'list':
-        return [vd[1](item) for item in items for vd in node[1]]
+        return [v for item in items for v in (vd[1](item) for vd in node[1]) if v is not SKIP]
     if kind == 'auto':
         return node[1][1](items[-1])
     if kind == 'limit':
         sub = node[2] if node[2] is not None else ('list', [('T', lambda t: t, T)])
-        return ref_group(items[:node[1]], sub)
+        return ref_group(items[:node[1]], sub, opens)
     return agg_ref(node[1], items)
+
+
+def has_skipping_value(node):
+    kind = node[0]
+    if kind == 'dict':
+        return any(has_skipping_value(sub) for _, sub in node[1])
+    if kind == 'list':
+        return any(vd[0].startswith('skip-') for vd in node[1])
+    if kind == 'limit':
+        return node[2] is not None and has_skipping_value(node[2])
+    return False
 
 
 class DefectModel:
@@ -265,7 +304,9 @@ class DefectModel:
         if kind == 'list':
             acc = tree.setdefault(('acc', id(node)), [])
             for vd in node[1]:
-                acc.append(vd[1](item))
+                v = vd[1](item)
+                if v is not SKIP:
+                    acc.append(v)
             return acc
         if kind == 'auto':
             return node[1][1](item)
@@ -336,6 +377,11 @@ def judge(col, node, items, got, context, wit):
         return False
     if got.ok and same(got.value, want.value):
         return True
+    if got.ok and has_skipping_value(node):
+        col.count('trees_with_a_value_spec_that_skips')
+        alt = call(ref_group, items, node, 'kept')
+        if alt.ok and same(got.value, alt.value):
+            return True
     if got.ok and has_first_under_key(node):
         pred = call(DefectModel().run, items, node)
         col.count('defect_model_consulted')
@@ -375,6 +421,8 @@ def one_case(col, rng):
     b = mk_items(rng.randint(1, 9), adversarial)
     spec_obj = Group(build_spec(node))
     desc = describe(node)
+    if has_skipping_value(node):
+        col.count('group_trees_whose_value_spec_skips_some_items')
     nbuckets = len({repr(node[1][0][0][1](i)) for i in a}) if node[0] == 'dict' else 0
     col.case((shape(node), item_kind, min(nbuckets, 4), adversarial), nbuckets >= 2 or levels >= 2)
     wit = {'spec': desc, 'a': short(a), 'b': short(b)}
